@@ -162,6 +162,20 @@ def punct_ok(k: int, template: str, a: int, slash: bool) -> bool:
     return _run(doc, path)
 
 
+def punct_kw_ok(k: int, kw: int, a: int, b: int, slash: bool) -> bool:
+    """Keyword searches over a hash of hashes whose child keys hold an escapable character."""
+    key = PKEYS[k]
+    kw = [("max", False), ("min", False), ("max", True), ("min", True), ("unique", False), ("distinct", False),
+          ("has_child", False)][kw]
+    t = cmap((key, cmap(("p", a))), ("z", cmap(("p", b))), (key + "2", cmap(("q", 1))))
+    doc = cmap(("t", t))
+    path = ("/t[" if slash else "t[") + ("!" if kw[1] else "") + kw[0] + "(p)]"
+    if kw[0] == "has_child":
+        path = ("/t/*[" if slash else "t.*[") + "has_child(p)]"
+    note(key=key, path=path, leaves=[a, b])
+    return _run(doc, path)
+
+
 QUICK = [("AOH3", "kw_haschild"), ("AOHX", "kw_nhaschild"), ("AOH3", "p_parent"), ("AOH3", "p"), ("AOHX", "kw_maxp"),
          ("L3", "kw_max"), ("AOH3", "idx_p_parent"), ("HOH", "star_parent"), ("MM", "p_parent"),
          ("AOH3", "p_parent_n"), ("L3", "idx"), ("ML3", "el_gt"), ("AOHX", "at_gt"), ("AOHD", "deep_p"), ("MM", "deep"),
@@ -214,6 +228,11 @@ def shards(tier, seed):
         pairs = uniq
     for s, t in pairs:
         out.append(_mk(s, t, tier))
+    for kw in range(7) if tier == "thorough" else [0, 1, 3]:
+        out.append(shard(PID, "punct_kw/%d" % kw, "harness.c02", "punct_kw_ok(k, %d, a, b, slash)" % kw,
+                         [("k", "int"), ("a", "int"), ("b", "int"), ("slash", "bool")],
+                         ["0 <= k < %d" % len(PKEYS), "-1 <= a <= 1 and -1 <= b <= 1"], family="punct_kw", budget=900,
+                         desc="keyword #%d over a hash of hashes whose child keys hold an escapable character" % kw))
     pt = ["star", "key_sw", "deep"] if tier == "quick" else ["star", "deep", "key_sw", "aoh_star", "deep_root"]
     for t in pt:
         out.append(shard(PID, "punct/%s" % t, "harness.c02", "punct_ok(k, %r, a, slash)" % t,
